@@ -10,6 +10,7 @@
 #
 # Copyright 2024 - Yan Georget
 ###############################################################################
+import numpy as np
 from numba import njit  # type: ignore
 from numpy.typing import NDArray
 
@@ -46,7 +47,8 @@ def split_low_dom_heuristic(
     :return: the events
     """
     cp_cur_idx = stacks_top[0]
-    value = (shr_domains_stack[cp_cur_idx, dom_idx, MIN] + shr_domains_stack[cp_cur_idx, dom_idx, MAX]) // 2
+    # the sum of two bounds may not fit 32 bits (numpy scalars do not promote when the JIT is disabled)
+    value = (np.int64(shr_domains_stack[cp_cur_idx, dom_idx, MIN]) + shr_domains_stack[cp_cur_idx, dom_idx, MAX]) // 2
     cp_put(shr_domains_stack, not_entailed_propagators_stack, stacks_top)
     shr_domains_stack[cp_cur_idx + 1, dom_idx, MAX] = value
     shr_domains_stack[cp_cur_idx, dom_idx, MIN] = value + 1
